@@ -36,6 +36,48 @@ VECS = [[0.0, 1.0, 3.0], [1.0], [0.0, 1.0], [-1.0, 0.0, 0.5, 2.5],
         [0.0, 0.25, 1.0, 1.5, 4.0], [-2.0, -1.5, 0.0, 0.5, 1.0, 3.0]]
 OFFS = [0.0, 0.25, 1.0]
 
+# Magnitude regimes: every axis of the limit / coordinate-vector alphabets is also visited under
+# the affine image x -> scale * x + offset, so that the partition lies far from the origin
+# compared with its stride (|x| / stride ~ 1e9 .. 1e10: the rounding of the nodes, ~ulp(|x|),
+# exceeds any fixed absolute tolerance while staying far below the stride), has a tiny extent
+# (every length lies below a fixed absolute tolerance) or a huge one.  The property is
+# quantified over all domain limits; the oracle is the same, with the tolerance proportional to
+# the magnitude of the coordinates (rule 3).
+REGIMES = {           # name: (scale, offset, class)
+    'far+': (1.0, 1e9, 'far'),
+    'far-': (1.0, -3e8, 'far'),
+    'tiny': (1e-9, 0.0, 'tiny'),
+    'huge': (1e9, 0.0, 'huge'),
+}
+REG_ORDER = ['far+', 'far-', 'tiny', 'huge']
+REG_SHAPES = SHAPES + [7]      # 7: a stride that is not a binary fraction for every limit pair
+
+_STATE = {'unit': 1.0, 'regime': False}     # set at the beginning of run() from the config only
+
+
+def _tr(v, reg):
+    """Image of a number of the standard alphabet under the regime (float arithmetic: the
+    request IS the resulting float)."""
+    if reg is None:
+        return float(v)
+    s, o, _ = REGIMES[reg]
+    return float(s * v + o)
+
+
+def _unit_of(regs):
+    """Length unit of a state: the magnitude of the coordinates (image of 1), the largest over
+    the axes; 1 for the standard alphabet."""
+    u = None
+    for r in (regs or [None]):
+        ur = 1.0 if r is None else abs(REGIMES[r][1]) + REGIMES[r][0]
+        u = ur if u is None else max(u, ur)
+    return u
+
+
+def _suffix_of(regs):
+    cl = sorted(set(REGIMES[r][2] for r in (regs or []) if r is not None))
+    return ('@' + '+'.join(cl)) if cl else ''
+
 
 # ------------------------------------------------------------------------------------------
 # small helpers
@@ -43,14 +85,15 @@ OFFS = [0.0, 0.25, 1.0]
 class Viol(object):
     """Collects the first failing inner case per (site, symptom)."""
 
-    def __init__(self):
+    def __init__(self, suffix=''):
         self.first = {}
         self.evals = 0
         self.skipped = 0
         self.sigs = set()
+        self.suffix = suffix      # magnitude regime class of the state, part of every site
 
     def add(self, site, symptom, detail):
-        self.first.setdefault((site, symptom), str(detail)[:900])
+        self.first.setdefault((site + self.suffix, symptom), str(detail)[:900])
 
     def result(self, trivial=False, sample=None):
         out = {'evals': self.evals, 'skipped': self.skipped,
@@ -67,7 +110,7 @@ def _fl(seq):
 
 
 def _tol(*vals):
-    m = 1.0
+    m = _STATE['unit']
     for v in vals:
         a = np.max(np.abs(np.asarray(v, dtype=float))) if np.size(v) else 0.0
         m = max(m, float(a))
@@ -78,6 +121,29 @@ def _close(a, b):
     a = np.asarray(a, dtype=float)
     b = np.asarray(b, dtype=float)
     return a.shape == b.shape and bool(np.all(np.abs(a - b) <= _tol(a, b)))
+
+
+def _cond(x, b):
+    """Conditioning of a dimensionless ratio of coordinate differences (cell fraction,
+    fractional index): magnitude of the coordinates over the smallest positive cell width /
+    node distance.  Only used in the magnitude regimes (0 otherwise: the standard alphabet is
+    judged with the plain 1e-12)."""
+    if not _STATE['regime']:
+        return 0.0
+    x = np.asarray(x, dtype=float)
+    b = np.asarray(b, dtype=float)
+    d = np.concatenate([np.diff(x), np.diff(b)])
+    d = d[d > 0]
+    if not d.size:
+        return 0.0
+    return float(max(np.max(np.abs(x)), np.max(np.abs(b))) / np.min(d))
+
+
+def _close_ratio(a, b, cond):
+    a = np.asarray(a, dtype=float)
+    b = np.asarray(b, dtype=float)
+    m = max(1.0, cond, float(np.max(np.abs(a))), float(np.max(np.abs(b))))
+    return a.shape == b.shape and bool(np.all(np.abs(a - b) <= RTOL * m))
 
 
 def _same(a, b, exact):
@@ -219,7 +285,8 @@ def _invariants(p, site, V, what, uniform_dx):
             fl = float((Fr(x[0]) + d0 / 2 - Fr(lo)) / d0)
             frr = float((Fr(hi) - (Fr(x[-1]) - d1 / 2)) / d1)
             got = (float(fracs[ax][0]), float(fracs[ax][1]))
-            if not _close(got, (fl, frr)):
+            if not (_close_ratio(got, (fl, frr), _cond(x, b)) if _STATE['regime']
+                    else _close(got, (fl, frr))):
                 V.add(site, 'boundary_cell_fractions_differ',
                       tag + ' expected %s got %s' % ((fl, frr), got))
         # nodes on boundary
@@ -231,7 +298,12 @@ def _invariants(p, site, V, what, uniform_dx):
               % (what, nob, p.nodes_on_bdry))
     # uniform partitions: cell side times cell count reproduces the extent
     ref = ref_from_impl(p)
-    if nd and all(a.uniform for a in ref):
+    # A partition is uniform if it was BUILT as uniform (``uniform_dx`` given: uniform_partition
+    # "Return a partition with equally sized cells", and the same nodes handed to the other
+    # factories) or if its nodes are exactly equispaced.  In the first case the nodes carry the
+    # rounding of the construction (~ulp of the coordinates), which is_uniform has to tolerate
+    # wherever the domain lies; the node distance is then taken as (x[-1] - x[0]) / (n - 1).
+    if nd and (uniform_dx is not None or all(a.uniform for a in ref)):
         if not p.is_uniform:
             V.add(site, 'is_uniform_false', '%s: %s' % (what, describe(ref)))
         else:
@@ -239,9 +311,10 @@ def _invariants(p, site, V, what, uniform_dx):
             for ax, a in enumerate(ref):
                 n = a.n
                 if n >= 2:
-                    step = float(a.nodes[1] - a.nodes[0])
-                    cells = (n - 1) + float((a.nodes[0] - a.lo) / (a.nodes[1] - a.nodes[0])) \
-                        + float((a.hi - a.nodes[-1]) / (a.nodes[1] - a.nodes[0]))
+                    rstep = (a.nodes[-1] - a.nodes[0]) / (n - 1)    # == x[1]-x[0] if equispaced
+                    step = float(rstep)
+                    cells = (n - 1) + float((a.nodes[0] - a.lo) / rstep) \
+                        + float((a.hi - a.nodes[-1]) / rstep)
                     if not _close(sides[ax], step) or not _close(sides[ax] * cells,
                                                                    float(a.hi - a.lo)):
                         V.add(site, 'cell_sides_differ', '%s: axis %d %s cell_sides %s'
@@ -260,6 +333,12 @@ def _invariants(p, site, V, what, uniform_dx):
                     V.skipped += 1
             if all(a.n >= 2 for a in ref) and not _close(p.cell_volume, float(np.prod(sides))):
                 V.add(site, 'cell_volume_differs', what)
+    elif nd and p.is_uniform:
+        # nodes not equispaced and not requested as uniform, yet "uniform" for the library
+        # (within its tolerance): C14 does not say which deviation is_uniform may forgive ->
+        # counted and visible in the signatures, not judged
+        V.skipped += 1
+        V.sigs.add('claims-uniform:nodes-not-equispaced')
 
 
 # ------------------------------------------------------------------------------------------
@@ -275,11 +354,17 @@ def axis_points(b, x, near=True):
         for q in (0.25, 0.5, 0.75):
             pts.add(float(b[i] + q * w))
     if near:
-        for v in b:
+        for i, v in enumerate(b):
             v = float(v)
             d6 = 1e-6 * max(1.0, abs(v))
             pts.update([float(np.nextafter(v, -np.inf)), float(np.nextafter(v, np.inf)),
                         v - 1e-9, v + 1e-9, v - d6, v + d6])
+            # the same relative to the adjacent cells (whatever the magnitude of the partition)
+            ws = [float(b[j + 1] - b[j]) for j in (i - 1, i)
+                  if 0 <= j < len(b) - 1 and b[j + 1] > b[j]]
+            if ws:
+                w = min(ws)
+                pts.update([v - 1e-9 * w, v + 1e-9 * w, v - 1e-6 * w, v + 1e-6 * w])
     lo, hi = float(b[0]), float(b[-1])
     return sorted(v for v in pts if lo <= v <= hi)
 
@@ -293,6 +378,7 @@ def check_points(p, site, V, what='', star=False, near=True):
     bs = [np.asarray(v, dtype=float) for v in p.cell_boundary_vecs]
     frb = [[Fr(float(v)) for v in b] for b in bs]
     sets = [axis_points(b, x, near=near) for b, x in zip(bs, p.coord_vectors)]
+    conds = [_cond(x, b) for b, x in zip(bs, p.coord_vectors)]
     if nd > 1 and int(np.prod([len(q) for q in sets])) > PRODUCT_CAP:
         star = True
     if star and nd > 1:
@@ -333,7 +419,7 @@ def check_points(p, site, V, what='', star=False, near=True):
                         V.add(site, 'index_result_type', tag + ' got %r' % (r,))
                         break
                     flo, fhi = R.float_index(frb[ax], Fr(v))
-                    t = RTOL * max(1.0, len(b))
+                    t = RTOL * max(1.0, len(b), conds[ax])
                     if not (float(flo) - t <= float(ri) <= float(fhi) + t):
                         V.add(site, 'fractional_index_differs',
                               tag + ' axis %d expected %s got %r' % (ax, float(flo), ri))
@@ -610,17 +696,24 @@ def uni_ref(axes):
     return ref, dxs
 
 
-def non_ref(axes):
+def non_ref(axes, regs=None):
     """axes: [[vec_id, mode, u, v], ...]; mode 'nob': flags (u, v); mode 'lim': limits
-    x[0]-OFFS[u], x[-1]+OFFS[v]."""
+    x[0]-OFFS[u], x[-1]+OFFS[v].  ``regs``: per-axis magnitude regime (the coordinate vector
+    and the offsets are mapped; the requested numbers are the resulting floats)."""
     ref = []
-    for vid, mode, u, v in axes:
-        x = VECS[vid]
+    for k, (vid, mode, u, v) in enumerate(axes):
+        reg = regs[k] if regs else None
+        if reg is None:
+            x = VECS[vid]
+            lo, hi = Fr(x[0]) - Fr(OFFS[u]), Fr(x[-1]) + Fr(OFFS[v])
+        else:
+            x = [_tr(t, reg) for t in VECS[vid]]
+            sc = REGIMES[reg][0]
+            lo, hi = Fr(float(x[0] - sc * OFFS[u])), Fr(float(x[-1] + sc * OFFS[v]))
         if mode == 'nob':
             ref.append(R.nonuniform_axis(x, bl=u, br=v))
         else:
-            ref.append(R.nonuniform_axis(x, lo=Fr(x[0]) - Fr(OFFS[u]),
-                                         hi=Fr(x[-1]) + Fr(OFFS[v])))
+            ref.append(R.nonuniform_axis(x, lo=lo, hi=hi))
     return ref
 
 
@@ -661,7 +754,8 @@ def base_of(cfg, V):
                   % (lo, hi, shp, nob_nested(flags), e))
             return None
     else:
-        ref = non_ref(cfg['axes']) if cfg['kind'] == 'non' else pool_ref(cfg['axes'])
+        ref = (non_ref(cfg['axes'], cfg.get('reg')) if cfg['kind'] == 'non'
+               else pool_ref(cfg['axes']))
         dxs = None
         try:
             p = build_direct(ref)
@@ -703,7 +797,9 @@ def _route_ok(route, a, dx, spec):
     return True
 
 
-def check_route(V, site, what, call, ref, exact, primary):
+def check_route(V, site, what, call, ref, exact, primary, dxs=None):
+    """``dxs``: per-axis requested cell side of a partition built as uniform: the result of
+    the route has to satisfy the uniform clauses too (is_uniform, cell side x count)."""
     V.evals += 1
     try:
         q = call()
@@ -719,6 +815,8 @@ def check_route(V, site, what, call, ref, exact, primary):
         V.add(site, 'approx_equals_false', what)
     if exact and not (q == primary and primary == q and not (q != primary)):
         V.add(site, 'not_equal_to_primary_route', what)
+    if dxs is not None:
+        invariants(q, site, V, what, uniform_dx=dxs)
     return q
 
 
@@ -746,8 +844,15 @@ def uniform_routes(cfg, p, ref0, exact, dxs, V):
               'cell_sides': [None if r == 'mms' else v for r, v in zip(combo, cs)]}
         kw = dict((k, v) for k, v in kw.items() if any(e is not None for e in v))
         forms = [('list', kw)]
+        if len(set(combo)) == 1:
+            # other documented operand types ("float or sequence of float", "int or sequence
+            # of ints"): tuples; in 1d plain and NumPy scalars
+            forms.append(('tuple', dict((k, tuple(v)) for k, v in kw.items())))
         if nd == 1:
             forms.append(('scalar', dict((k, v[0]) for k, v in kw.items())))
+            forms.append(('numpy-scalar', dict(
+                (k, np.int64(v[0]) if k == 'shape' else np.float64(v[0]))
+                for k, v in kw.items())))
         for fname, k in forms:
             for ename, enc in encs:
                 V.sigs.add('route:%s' % '+'.join(sorted(set(combo))))
@@ -756,7 +861,7 @@ def uniform_routes(cfg, p, ref0, exact, dxs, V):
                     ', '.join('%s=%r' % kv for kv in sorted(k.items())), enc)
                 check_route(V, rsite, what,
                             lambda k=k, enc=enc: odl.uniform_partition(nodes_on_bdry=enc, **k),
-                            ref, exact, p)
+                            ref, exact, p, dxs=dxs)
         if nd == 1 and flags[0][0] != flags[0][1]:
             # the library's own compact spelling of per-side flags of a 1-d partition
             # (`RectPartition.nodes_on_bdry`, printed by repr): a bare pair
@@ -766,7 +871,7 @@ def uniform_routes(cfg, p, ref0, exact, dxs, V):
                 ', '.join('%s=%r' % kv for kv in sorted(k.items())), pair)
             check_route(V, 'uniform_partition[1d,nodes_on_bdry=pair]', what,
                         lambda k=k: odl.uniform_partition(nodes_on_bdry=pair, **k),
-                        ref, exact, p)
+                        ref, exact, p, dxs=dxs)
     # all four given but inconsistent: "If all four are provided, they are checked for
     # consistency."
     if all(dx is not None and dx > 0 for dx in dxs):
@@ -788,14 +893,14 @@ def uniform_routes(cfg, p, ref0, exact, dxs, V):
                     lambda enc=enc: odl.uniform_partition_fromintv(intv, scal(shp) if
                                                                     ename == 'compact' else shp,
                                                                     nodes_on_bdry=enc),
-                    ref, exact, p)
+                    ref, exact, p, dxs=dxs)
     if nd == 1 and flags[0][0] != flags[0][1]:
         pair = (bool(flags[0][0]), bool(flags[0][1]))
         check_route(V, 'uniform_partition_fromintv[1d,nodes_on_bdry=pair]',
                     'fromintv(%r, %s, %r)' % (intv, shp, pair),
                     lambda: odl.uniform_partition_fromintv(intv, shp[0], nodes_on_bdry=pair),
-                    ref, exact, p)
-    grid_routes(site, p, ref, exact, V, uniform=True)
+                    ref, exact, p, dxs=dxs)
+    grid_routes(site, p, ref, exact, V, dxs=dxs)
 
 
 def _natural(a, side):
@@ -808,11 +913,16 @@ def _natural(a, side):
     return a.hi == a.nodes[-1] + (a.nodes[-1] - a.nodes[-2]) / 2
 
 
-def grid_routes(site, p, ref, exact, V, uniform=False):
+def grid_routes(site, p, ref, exact, V, dxs=None):
     """Routes that start from explicit nodes: RectPartition, uniform_partition_fromgrid,
     nonuniform_partition.  ``ref`` is the model of the *request*; when it is not dyadic the
-    node values handed over are the primary partition's own."""
+    node values handed over are the primary partition's own.  ``dxs``: the nodes are those of
+    a partition built as uniform (nonuniform_partition docstring: "With uniformly spaced
+    points the result is the same as a uniform partition")."""
     nd = len(ref)
+
+    def cr(*args):       # every route below carries the uniform request along
+        return check_route(*args, dxs=dxs)
     if not exact:
         ref = ref_from_impl(p)
         exact = True
@@ -823,15 +933,15 @@ def grid_routes(site, p, ref, exact, V, uniform=False):
     def scal(v):
         return v[0] if nd == 1 else v
 
-    check_route(V, 'RectPartition', 'RectPartition(IntervalProd(%s, %s), RectGrid(%s))'
+    cr(V, 'RectPartition', 'RectPartition(IntervalProd(%s, %s), RectGrid(%s))'
                 % (lo, hi, vecs), lambda: build_direct(ref), ref, exact, p)
     grid = odl.RectGrid(*vecs)
     fsite = 'uniform_partition_fromgrid'
-    check_route(V, fsite, 'fromgrid(RectGrid(%s), min_pt=%s, max_pt=%s)' % (vecs, lo, hi),
+    cr(V, fsite, 'fromgrid(RectGrid(%s), min_pt=%s, max_pt=%s)' % (vecs, lo, hi),
                 lambda: odl.uniform_partition_fromgrid(grid, min_pt=lo, max_pt=hi),
                 ref, exact, p)
     if nd == 1:
-        check_route(V, fsite, 'fromgrid(RectGrid(%s), min_pt=%s, max_pt=%s)'
+        cr(V, fsite, 'fromgrid(RectGrid(%s), min_pt=%s, max_pt=%s)'
                     % (vecs, lo[0], hi[0]),
                     lambda: odl.uniform_partition_fromgrid(grid, min_pt=lo[0], max_pt=hi[0]),
                     ref, exact, p)
@@ -844,17 +954,17 @@ def grid_routes(site, p, ref, exact, V, uniform=False):
             dmax = dict(((ax - nd) if neg else ax, hi[ax]) for ax in range(nd)
                         if not (partial and _natural(ref[ax], 1)))
             V.sigs.add('fromgrid-dict:%d:%d' % (len(dmin), len(dmax)))
-            check_route(V, fsite + '[dict]', 'fromgrid(RectGrid(%s), min_pt=%s, max_pt=%s)'
+            cr(V, fsite + '[dict]', 'fromgrid(RectGrid(%s), min_pt=%s, max_pt=%s)'
                         % (vecs, dmin, dmax),
                         lambda: odl.uniform_partition_fromgrid(grid, min_pt=dict(dmin),
                                                                max_pt=dict(dmax)),
                         ref, exact, p)
     if all(_natural(a, 0) and _natural(a, 1) for a in ref):
-        check_route(V, fsite, 'fromgrid(RectGrid(%s))' % (vecs,),
+        cr(V, fsite, 'fromgrid(RectGrid(%s))' % (vecs,),
                     lambda: odl.uniform_partition_fromgrid(grid), ref, exact, p)
     # nonuniform_partition: explicit limits; per-side flags; a mixture of both
     nsite = 'nonuniform_partition'
-    check_route(V, nsite, 'nonuniform_partition(*%s, min_pt=%s, max_pt=%s)' % (vecs, lo, hi),
+    cr(V, nsite, 'nonuniform_partition(*%s, min_pt=%s, max_pt=%s)' % (vecs, lo, hi),
                 lambda: odl.nonuniform_partition(*vecs, min_pt=scal(lo), max_pt=scal(hi)),
                 ref, exact, p)
     # side expressible through nodes_on_bdry?  flag True: node on the limit; flag False:
@@ -870,18 +980,18 @@ def grid_routes(site, p, ref, exact, V, uniform=False):
     if all(l is not None and r is not None for l, r in fl):
         for ename, enc in nob_encodings(fl):
             V.sigs.add('nonuniform-nob:%s' % ename)
-            check_route(V, nsite, 'nonuniform_partition(*%s, nodes_on_bdry=%r)' % (vecs, enc),
+            cr(V, nsite, 'nonuniform_partition(*%s, nodes_on_bdry=%r)' % (vecs, enc),
                         lambda enc=enc: odl.nonuniform_partition(*vecs, nodes_on_bdry=enc),
                         ref, exact, p)
         if any(a.n == 1 for a in ref):
             # documented: single coordinates may be given as scalars (`nonuniform_partition(1)`)
             sv = [v[0] if len(v) == 1 else v for v in vecs]
-            check_route(V, nsite, 'nonuniform_partition(*%s)' % (sv,),
+            cr(V, nsite, 'nonuniform_partition(*%s)' % (sv,),
                         lambda: odl.nonuniform_partition(*sv, nodes_on_bdry=nob_nested(fl)),
                         ref, exact, p)
         if nd == 1 and fl[0][0] != fl[0][1]:
             pair = (fl[0][0], fl[0][1])
-            check_route(V, 'nonuniform_partition[1d,nodes_on_bdry=pair]',
+            cr(V, 'nonuniform_partition[1d,nodes_on_bdry=pair]',
                         'nonuniform_partition(%s, nodes_on_bdry=%r)' % (vecs[0], pair),
                         lambda: odl.nonuniform_partition(vecs[0], nodes_on_bdry=pair),
                         ref, exact, p)
@@ -891,7 +1001,7 @@ def grid_routes(site, p, ref, exact, V, uniform=False):
     mfl = [(bool(l), bool(r)) for l, r in fl]
     if any(l or r for l, r in mfl) and any(v is not None for v in mmin + mmax):
         V.sigs.add('nonuniform-mixed')
-        check_route(V, nsite, 'nonuniform_partition(*%s, min_pt=%s, max_pt=%s, nodes_on_bdry=%s)'
+        cr(V, nsite, 'nonuniform_partition(*%s, min_pt=%s, max_pt=%s, nodes_on_bdry=%s)'
                     % (vecs, mmin, mmax, mfl),
                     lambda: odl.nonuniform_partition(*vecs, min_pt=mmin, max_pt=mmax,
                                                      nodes_on_bdry=mfl),
@@ -1758,14 +1868,18 @@ def check_nonmutating(cfg, reqref, V):
 # ------------------------------------------------------------------------------------------
 # the bounded space
 
-def _uni_axes():
+def _uni_tr(a, reg):
+    return [_tr(a[0], reg), _tr(a[1], reg)] + list(a[2:])
+
+
+def _uni_axes(reg=None):
     out = []
-    for n in SHAPES:
+    for n in (SHAPES if reg is None else REG_SHAPES):
         for lim in LIMITS:
             for f in FLAGS:
-                out.append([lim[0], lim[1], n, f[0], f[1]])
+                out.append(_uni_tr([lim[0], lim[1], n, f[0], f[1]], reg))
     for f in FLAGS:
-        out.append([1.0, 1.0, 1, f[0], f[1]])           # degenerate interval, one node
+        out.append(_uni_tr([1.0, 1.0, 1, f[0], f[1]], reg))   # degenerate interval, one node
     return out
 
 
@@ -1878,6 +1992,29 @@ def configs(tier):
         bases.append(('uni', [G2U[1], G2U[2], G2U[0]], ['getitem']))
         bases.append(('uni', [G2U[2], G2U[0], G2U[0]], ['getitem']))
         bases.append(('non', [G2N[0], G2N[1], G2N[2]], ['getitem']))
+    # magnitude regimes (see REGIMES): the 1-d alphabets in full; 2-d: both axes in the regime
+    # and one axis in the regime next to a standard one (either order)
+    regbases = []        # (kind, axes, whats, regs)
+    for reg in REG_ORDER:
+        UR = _uni_axes(reg)
+        for a in UR:
+            regbases.append(('uni', [a], RP + ['getitem'], [reg]))
+        for a in N:
+            regbases.append(('non', [a], RP + ['getitem'], [reg]))
+        small_r = [_uni_tr(a, reg) for a in UNI_SMALL]
+        for a in small_r:
+            regbases.append(('uni', [a], ['alias'], [reg]))
+        for a in NON_SMALL:
+            regbases.append(('non', [a], ['alias'], [reg]))
+        two = [(x, y, [reg, reg]) for x in small_r for y in small_r]
+        two += [(x, y, [reg, None]) for x in small_r for y in UNI_SMALL[:3]]
+        two += [(x, y, [None, reg]) for x in UNI_SMALL[:3] for y in small_r]
+        for x, y, rg in two:
+            regbases.append(('uni', [list(x), list(y)], RP if thorough or rg[0] == rg[1]
+                             else ['routes'], rg))
+        for x in NON_SMALL:
+            for y in NON_SMALL:
+                regbases.append(('non', [list(x), list(y)], RP, [reg, reg]))
     # products of pool partitions for insert / append / squeeze / byaxis
     np_ = len(POOL)
     for nd in (1, 2, 3):
@@ -1911,18 +2048,27 @@ def configs(tier):
     full = set(repr((c['kind'], c['axes'])) for c in cfgs if c.get('full2'))
     cfgs = [c for c in cfgs if not (c['what'] == 'getitem' and not c.get('full2')
                                     and repr((c['kind'], c['axes'])) in full)]
+    for kind, axes, whats, rg in regbases:
+        for w in whats:
+            cfgs.append({'kind': kind, 'axes': axes, 'what': w, 'reg': rg})
     cfgs += hist
-    cfgs.sort(key=lambda c: (len(c['axes']), _complexity(c['axes'], c['kind'])))
+    cfgs.sort(key=lambda c: (len(c['axes']), 1 if c.get('reg') else 0,
+                             _complexity(c['axes'], c['kind'])))
     return cfgs
 
 
 def run(cfg):
+    regs = cfg.get('reg')
+    _STATE['unit'] = _unit_of(regs)
+    _STATE['regime'] = bool(regs)
     if cfg['kind'] == 'hist':
         return run_history(cfg)
-    V = Viol()
+    V = Viol(_suffix_of(regs))
     b = base_of(cfg, V)
     nd = len(cfg['axes'])
     V.sigs.add('%s:%dd:%s' % (cfg['kind'], nd, cfg['what']))
+    if regs:
+        V.sigs.add('regime:%s' % '/'.join(str(r) for r in regs))
     if b is None:
         V.sigs.add('no-base')
         return V.result(trivial=not V.first)
@@ -1935,7 +2081,7 @@ def run(cfg):
         if cfg['kind'] == 'uni':
             uniform_routes(cfg, p, ref, exact, dxs, V)
         else:
-            grid_routes(site, p, non_ref(cfg['axes']), exact, V)
+            grid_routes(site, p, non_ref(cfg['axes'], regs), exact, V)
     elif w == 'points':
         check_points(p, site + '.index', V, 'base %s' % (cfg['axes'],), star=(nd >= 3))
     elif w == 'getitem':
@@ -1943,7 +2089,8 @@ def run(cfg):
                                   points_star=(nd >= 2))
         return V.result(sample={'distinct_children': nch, 'distinct_grandchildren': ng})
     elif w == 'alias':
-        req = uni_ref(cfg['axes'])[0] if cfg['kind'] == 'uni' else non_ref(cfg['axes'])
+        req = (uni_ref(cfg['axes'])[0] if cfg['kind'] == 'uni'
+               else non_ref(cfg['axes'], regs))
         check_aliasing(cfg, p, req, exact, dxs, V)
         check_containers(cfg, req, exact, dxs, V)
         check_nonmutating(cfg, req, V)
